@@ -766,7 +766,7 @@ func TestVerifC11b(t *testing.T) {
 	r.Count("head_cases_with_gauge_marker_joining_a_chunk", int(st.gaugeMarkerJoined.Load()))
 	r.Set("phases_head", desc)
 	r.Set("depth_completed_head", completed)
-	r.Set("rule_head", "parts (b)-(d): every sequence of atoms of the stated alphabets and lengths is one series of a real Head (chunk range 1000, up to 4096 series per Head), under every listed configuration (Appender + plain encodings or AppenderV2 with start timestamps + ST-capable encodings; a chunk-range boundary before any subset of the samples; one commit per position or a single transaction). Each series is read through the sample querier (fresh objects, kept until the series is exhausted) and the chunk querier (recycled iterator and object, all samples as float histograms) from the head, again after Head.mmapHeadChunks, and from the block written by LeveledCompactor.Write of the head and re-opened from disk; compared with histmodel at every timestamp; the caller's objects are re-decoded at the end. distinct_nontrivial counts the enumerated (sequence, configuration) cases (distinct by construction) in which the head kept at least two samples in one chunk, i.e. an appendable/recode decision came out as same-chunk; cases stored in several chunks, with m-mapped chunks and with empty buckets inserted into the caller's object are counted separately.")
+	r.Set("rule_head", "parts (b)-(d): every sequence of atoms of the stated alphabets and lengths is one series of a real Head (chunk range 1000, up to 4096 series per Head), under every listed configuration (Appender + plain encodings or AppenderV2 with start timestamps + ST-capable encodings; a chunk-range boundary before any subset of the samples; one commit per position or a single transaction). Each series is read through the sample querier (fresh objects, kept until the series is exhausted) and the chunk querier (recycled iterator and object, all samples as float histograms) from the head, again after Head.mmapHeadChunks, and from the block written by LeveledCompactor.Write of the head and re-opened from disk; compared with histmodel at every timestamp; the caller's objects are re-decoded at the end. distinct_nontrivial counts the enumerated (sequence, configuration) cases (distinct by construction) in which the head kept at least two samples in one chunk, i.e. an appendable/recode decision came out as same-chunk; cases stored in several chunks, with m-mapped chunks, with empty buckets inserted into the caller's object and with a staleness marker (a gauge-hinted one) stored in the chunk of its predecessor are counted separately. Alphabets as in part (a), including the staleness-interplay alphabet 'stale'.")
 	r.Set("rule", "parts (b)-(d): see rule_head")
 	if !r.TooManyViolations() && (st.markerJoined.Load() == 0 || st.gaugeMarkerJoined.Load() == 0) {
 		// the full alphabet at length 2 (always completed) already contains these cases
